@@ -4,6 +4,7 @@ import (
 	"context"
 	"fmt"
 	"net"
+	"os"
 	"sort"
 	"strings"
 	"sync"
@@ -38,6 +39,11 @@ type simAtomix struct {
 	// rpcGate, when set, is called at the start of every data RPC (not primitive Create/Close) that carries the
 	// "verif-thread" metadata key; the E2 scheduler blocks the caller there until it is scheduled.
 	rpcGate func(thread, method string)
+
+	// writeGate, when set, is called when a write RPC (Put, Insert, Update, Remove, Append, Commit, Clear) arrives,
+	// before it is executed (World.StepInterleaved holds a reconcile call there)
+	writeGate func()
+	conflicts int // writes refused because of a version precondition
 
 	lis *bufconn.Listener
 	srv *grpc.Server
@@ -83,7 +89,19 @@ func newSimAtomix(f *fuse) *simAtomix {
 	return s
 }
 
+func isWriteMethod(method string) bool {
+	for _, m := range []string{"/Put", "/Insert", "/Update", "/Remove", "/Append", "/Commit", "/Clear"} {
+		if strings.HasSuffix(method, m) {
+			return true
+		}
+	}
+	return false
+}
+
 func (s *simAtomix) gateCall(ctx context.Context, method string) {
+	if wg := s.writeGate; wg != nil && isWriteMethod(method) {
+		wg()
+	}
 	g := s.rpcGate
 	if g == nil || strings.HasSuffix(method, "/Create") || strings.HasSuffix(method, "/Close") {
 		return
@@ -298,10 +316,12 @@ func (s *simAtomix) mapCheck(mp *simMap, kind, key string, prevVersion uint64) e
 			return status.Errorf(codes.NotFound, "key '%s' not found", key)
 		}
 		if prevVersion != 0 && e.version != prevVersion {
+			s.conflicts++
 			return status.Errorf(codes.Aborted, "entry version %d does not match update version %d", e.version, prevVersion)
 		}
 	case "put":
 		if prevVersion != 0 && (!ok || e.version != prevVersion) {
+			s.conflicts++
 			return status.Errorf(codes.Aborted, "entry version does not match update version %d", prevVersion)
 		}
 	}
@@ -324,6 +344,13 @@ func (s *simAtomix) mapApply(name string, mp *simMap, kind, key string, value []
 		}
 		return s.version, old
 	case "remove":
+		if old == nil {
+			// the key was already removed by an earlier operation of the same commit
+			if os.Getenv("VERIF_DEBUG") != "" {
+				fmt.Printf("simatomix: commit on %s removes %q twice\n", name, key)
+			}
+			return 0, &simEntry{}
+		}
 		delete(mp.entries, key)
 		s.version++ // the removal consumes a log index too
 		s.publish(name, false, &mapv1.EventsResponse{Event: mapv1.Event{Key: key, Event: &mapv1.Event_Removed_{Removed: &mapv1.Event_Removed{
@@ -652,6 +679,7 @@ func (m *simIMapServer) Update(ctx context.Context, r *indexedmapv1.UpdateReques
 		return nil, status.Errorf(codes.NotFound, "entry '%s'/%d not found", r.Key, r.Index)
 	}
 	if r.PrevVersion != 0 && e.version != r.PrevVersion {
+		m.s.conflicts++
 		return nil, status.Errorf(codes.Aborted, "entry version %d does not match update version %d", e.version, r.PrevVersion)
 	}
 	if err := m.s.effect(fmt.Sprintf("imap %s update %s", r.ID.Name, e.key)); err != nil {
@@ -761,6 +789,7 @@ func (m *simIMapServer) Remove(ctx context.Context, r *indexedmapv1.RemoveReques
 		return nil, status.Errorf(codes.NotFound, "entry '%s'/%d not found", r.Key, r.Index)
 	}
 	if r.PrevVersion != 0 && e.version != r.PrevVersion {
+		m.s.conflicts++
 		return nil, status.Errorf(codes.Aborted, "entry version %d does not match remove version %d", e.version, r.PrevVersion)
 	}
 	if err := m.s.effect(fmt.Sprintf("imap %s remove %s", r.ID.Name, e.key)); err != nil {
